@@ -101,7 +101,8 @@ def setDataNode (sv : Server) (by_ : Nat) (path : Bytes) (d : Option Nat) (addTo
   | some s =>
     match path with
     | [] => sv
-    | c :: _ => if c = cSlash then sv else setDataClauses by_ d addToIndex sv (sessNames s) (splitSlash path)
+    -- empty clauses ("a//b", "a/") are left out, as every path-string consumer of the library does
+    | c :: _ => if c = cSlash then sv else setDataClauses by_ d addToIndex sv (sessNames s) ((splitSlash path).filter (· ≠ []))
 
 /-! ## traversal-driven handlers -/
 
